@@ -101,6 +101,11 @@ func badField(rng *rand.Rand, class string, col int, old string) (string, bool) 
 		case "nonce", "bits":
 			return pick("4294967296", "-1", "18446744073709551616", "-4294967295"), true
 		case "timestamp":
+			// beyond int64, and beyond the 32 bits a block timestamp has: the same value modulo 2^32 (the block hash only
+			// covers the low 32 bits), negative, just above the range
+			if v, err := strconv.ParseInt(old, 10, 64); err == nil && rng.Intn(2) == 0 {
+				return pick(strconv.FormatInt(v+(1<<32), 10), strconv.FormatInt(v-(1<<32), 10), strconv.FormatInt(v+(1<<40), 10), "4294967296", "-1"), true
+			}
 			return pick("9223372036854775808", "-9223372036854775809", "99999999999999999999"), true
 		default: // merkleroot longer than a hash
 			return old + pick("0", "00", strings.Repeat("ab", 32)), true
